@@ -35,3 +35,68 @@ DJV_CMD(bg_norm, "bg.norm")
     auto out = e::normalize_beatgrid(std::move(g), sc);
     return wr_grid(out);
 }
+
+// ---------------------------------------------------------------- C13: planted directories
+// plant2 <presence> <tables> <maj> <min> <pat> <numeric:0|1>  ->  load_database outcome
+//   presence: letters of  X (the directory itself does not exist)  L (<dir>/m.db)
+//             P (<dir>/p.db)  D (<dir>/Database2/m.db)  - (nothing)
+//   tables:   number of sqlite_master entries named 'Information' in every planted m.db:
+//             0 = no Information table, 1 = the table, 2 = the table and a trigger of that name
+//   maj/min/pat: any 64-bit integers, stored in the Information row by a plain sqlite3 connection
+#include <filesystem>
+#include <sqlite3.h>
+
+#include "djv_state.hpp"
+
+DJV_CMD(plant2, "plant2")
+{
+    namespace fs = std::filesystem;
+    namespace e = djinterop::engine;
+    const std::string& pres = a.at(1);
+    auto tables = parse_i64(a.at(2));
+    auto maj = parse_i64(a.at(3)), mi = parse_i64(a.at(4)), pat = parse_i64(a.at(5));
+    bool numeric = a.at(6) == "1";
+    djv::lib::S.tracks.clear();
+    djv::lib::S.crates.clear();
+    djv::lib::S.db.reset();
+    g_wrap.handles.clear();
+    auto dir = djv::lib::new_dir();
+    auto mk = [&](const std::string& path)
+    {
+        sqlite3* h = nullptr;
+        if (sqlite3_open(path.c_str(), &h) != SQLITE_OK) throw bad_command{"open"};
+        std::string sql =
+            "CREATE TABLE Track (id INTEGER PRIMARY KEY, isExternalTrack " +
+            std::string(numeric ? "NUMERIC" : "INTEGER") + ");";
+        if (tables >= 1)
+            sql +=
+                "CREATE TABLE Information (id INTEGER PRIMARY KEY, uuid TEXT, schemaVersionMajor INTEGER, "
+                "schemaVersionMinor INTEGER, schemaVersionPatch INTEGER, currentPlayedIndiciator INTEGER, "
+                "lastRekordBoxLibraryImportReadCounter INTEGER);"
+                "INSERT INTO Information VALUES (1, 'u', " +
+                std::to_string(maj) + ", " + std::to_string(mi) + ", " + std::to_string(pat) + ", 0, 0);";
+        if (tables >= 2)
+            sql += "CREATE TRIGGER Information AFTER INSERT ON Track BEGIN SELECT 1; END;";
+        char* err = nullptr;
+        int rc = sqlite3_exec(h, sql.c_str(), nullptr, nullptr, &err);
+        sqlite3_close(h);
+        if (rc != SQLITE_OK) throw bad_command{"exec"};
+    };
+    if (pres.find('L') != std::string::npos) mk(dir + "/m.db");
+    if (pres.find('P') != std::string::npos)
+    {
+        sqlite3* h = nullptr;
+        if (sqlite3_open((dir + "/p.db").c_str(), &h) != SQLITE_OK) throw bad_command{"open"};
+        sqlite3_exec(h, "CREATE TABLE PerformanceData (id INTEGER PRIMARY KEY);", nullptr, nullptr, nullptr);
+        sqlite3_close(h);
+    }
+    if (pres.find('D') != std::string::npos)
+    {
+        fs::create_directories(dir + "/Database2");
+        mk(dir + "/Database2/m.db");
+    }
+    if (pres.find('X') != std::string::npos) dir += "/absent";
+    e::engine_schema loaded{};
+    auto db = e::load_database(dir, loaded);
+    return djv::lib::name_of(loaded);
+}
